@@ -7,13 +7,37 @@ from . import summaries
 VERIF = os.path.abspath(os.path.join(os.path.dirname(__file__), '..', '..', '..'))
 CRATE = 'mcv_schemas'
 LEAF = (CRATE,)
+CONFIG = 'schemas'
+CORPUS_DIR = 'schemas'
+
+
+def set_corpus(which):
+    """'fixed' = the hand-enumerated template corpus (harness/schemas); 'rand' = 160 random schemas (harness/schemas-rand, thorough tier)"""
+    global CRATE, LEAF, CONFIG, CORPUS_DIR
+    if which == 'rand':
+        CRATE, CONFIG, CORPUS_DIR = 'mcv_schemas_rand', 'schemas-rand', 'schemas-rand'
+    else:
+        CRATE, CONFIG, CORPUS_DIR = 'mcv_schemas', 'schemas', 'schemas'
+    LEAF = (CRATE,)
 
 INT_T = ('u8', 'u16', 'u32', 'u64', 'i8', 'i16', 'i32', 'i64')
 
 
 def corpus():
-    d = json.load(open(os.path.join(VERIF, 'harness', 'schemas', 'schemas.json')))
+    d = json.load(open(os.path.join(VERIF, 'harness', CORPUS_DIR, 'schemas.json')))
     return d
+
+
+def on_random(ctx, fn):
+    """thorough tier: the same rule over the random corpus"""
+    set_corpus('rand')
+    summaries._cache.clear()
+    try:
+        ctx.rules_run.append('... and over 160 random schemas (harness/schemas-rand: random kinds, encodings, index permutations with gaps, optional/tagged fields, enum variant shapes)')
+        return fn(ctx)
+    finally:
+        set_corpus('fixed')
+        summaries._cache.clear()
 
 
 def tyname(s):
@@ -308,6 +332,8 @@ def variant_of(s, st):
     for v in s['variants']:
         if v['name'] == c:
             return v
+    if len(s['variants']) == 1:
+        return s['variants'][0]      # a one-variant enum has no discriminant to branch on
     return None
 
 
@@ -317,7 +343,7 @@ def pv_key(pres):
 
 def c08(ctx, schemas=None, prog=None):
     d = corpus()
-    prog = prog or load.program('schemas')
+    prog = prog or load.program(CONFIG)
     n = 0
     roots = 0
     for s in (schemas or d['schemas']):
@@ -394,7 +420,7 @@ def classify_d5_len(m, st, events, total, value):
 
 def c07(ctx, schemas=None, prog=None):
     d = corpus()
-    prog = prog or load.program('schemas')
+    prog = prog or load.program(CONFIG)
     n = 0
     roots = 0
     for s in (schemas or d['schemas']):
@@ -456,7 +482,8 @@ def lead_items(s, v):
     return n
 
 
-def check_decode_over(ctx, rule, key, prog, s, dpath, events, expect, where, leaf=LEAF, from_state=None):
+def check_decode_over(ctx, rule, key, prog, s, dpath, events, expect, where, leaf=None, from_state=None):
+    leaf = LEAF if leaf is None else leaf
     """run the derived decoder of schema s over `events`; `expect` maps field name -> ('origin', writer field key) | ('none',) | ('default',) | ('any',)
     returns True when everything matched"""
     try:
@@ -571,7 +598,7 @@ def expectation(s, v, pres, fields=None):
 
 def c09(ctx, schemas=None, prog=None):
     d = corpus()
-    prog = prog or load.program('schemas')
+    prog = prog or load.program(CONFIG)
     n = 0
     roots = 0
     for s in (schemas or d['schemas']):
@@ -617,7 +644,8 @@ def first_items(events):
     return [e for e in events if e[0] in ('ITEM', 'REP_BEGIN', 'REP_END')]
 
 
-def all_rejected(prog, s, events, from_state, leaf=LEAF):
+def all_rejected(prog, s, events, from_state, leaf=None):
+    leaf = LEAF if leaf is None else leaf
     """(True, classes) if no decode path succeeds on `events`"""
     r = l2.run_decode(prog, dec_path(s), events, leaf, from_state=from_state)
     if r is None:
@@ -635,7 +663,7 @@ def all_rejected(prog, s, events, from_state, leaf=LEAF):
 
 def c09_errors(ctx, schemas=None, prog=None):
     d = corpus()
-    prog = prog or load.program('schemas')
+    prog = prog or load.program(CONFIG)
     n = 0
     for s in (schemas or d['schemas']):
         label = s['name']
@@ -741,7 +769,7 @@ def by_name(d):
 
 def c10(ctx, prog=None):
     d = corpus()
-    prog = prog or load.program('schemas')
+    prog = prog or load.program(CONFIG)
     names = by_name(d)
     n = 0
     pairs_done = 0
